@@ -3,6 +3,8 @@ package main
 import (
 	"encoding/hex"
 	"fmt"
+	"github.com/preslavrachev/gomjml/mjml/components"
+	"github.com/preslavrachev/gomjml/mjml/options"
 	"regexp"
 	"strings"
 
@@ -419,6 +421,90 @@ func runC19(res *Result, tier string, seed int64, replay string) {
 		}
 	}
 	_ = mjml.Render
+	c19TagCorrespondence(res, drv, tier, seed)
+}
+
+// c19TagCorrespondence: the scanner's per-tag step (parse the start tag, add the declarations, write it back) — the real
+// inlineStylesInTag (verif export) against the Lean model `InlineTag.inlineTag` (driver `inltag`), byte for byte, on start tags of
+// every spelling: quoted / unquoted / valueless attributes, spaces and line breaks around '=', upper-case names, self-closing
+// forms, several class / style attributes, garbage.  The model also says whether its parse was `clean` (every byte looked at): the
+// theorems of Props.C19 speak about clean parses, so the share of clean tags is part of the evidence.
+func c19TagCorrespondence(res *Result, drv *DriverPool, tier string, seed int64) {
+	styles := map[string][]options.InlineStyle{
+		"ka": {{Property: "color", Value: "#111111"}, {Property: "font-weight", Value: "bold"}},
+		"kb": {{Property: "text-decoration", Value: "underline"}},
+	}
+	table := hex.EncodeToString([]byte("ka")) + ":" + hex.EncodeToString([]byte("color:#111111;font-weight:bold;")) + " " +
+		hex.EncodeToString([]byte("kb")) + ":" + hex.EncodeToString([]byte("text-decoration:underline;"))
+	tags := []string{
+		`<p class="ka">`, `<p class='kb' style="margin:0">`, `<a class="ka kb" href="http://x/?a=1&amp;b=2" title="a > b">`, `<img class="ka" src="i.png"/>`, `<img class="ka" src="i.png" />`,
+		`<br class="kb">`, `<td class="ka" style='padding:1px;' data-q="it's">`, `<div class="zz ka">`, `<p class="kaa">`, `<p CLASS="ka">`, `<input class="kb" disabled>`, `<input disabled class="kb">`,
+		`<span class='ka' style='font-family:"Helvetica Neue",Arial'>`, `<span style="font-family:'Open Sans'" class="kb">`, `<b class=ka>`, `<i class = "kb" >`, `<u class="ka" style="">`,
+		`<em class="ka" style="color:blue">`, `<a href=http://x/a class=ka>`, `<img src=i.png class=kb>`, "<p\n  class=\"ka\"\n  id='n'\n>", `<p class  =  'ka kb'   id = x >`, `<P Class="ka" STYLE="Top:0">`,
+		`<p class="ka" class="kb">`, `<p style="a:b" class="ka" style="c:d">`, `<p class=ka/>`, `<p class="ka"/ >`, `<p class="ka" / >`, `<br/>`, `<br class=kb/>`, `<p class>`, `<p class=>`, `<p class="">`,
+		`<p class="ka" style>`, `<p class="ka" style=>`, `<p class="ka" style=' '>`, `< p class="ka">`, `<p =x class="ka">`, `<p class="ka" =>`, `<p class="ka`, `<p class="ka" x=">">`, `<>`, `<`, `<p>`, `<p >`, `<p/>`,
+		`<p class="ka" a=b"c>`, `<p class='ka" x='>`, `<p	class="ka"	style="x:y;">`, `<p class="ka  kb	ka">`, `<svg:rect class="ka" xlink:href="#a"/>`, `<p class="ka" style="x:y ; ">`, `<p class="ka" style=";">`,
+	}
+	n := 1500
+	if tier == "thorough" {
+		n = 40000
+	}
+	alphabet := []string{"<", ">", "/", "=", "\"", "'", " ", "\n", "\t", "p", "class", "CLASS", "style", "Style", "ka", "kb", "x", "id", "a:b", ";", "-", "&amp;"}
+	for i := 0; i < n; i++ {
+		r := NewRng(seed, fmt.Sprintf("c19/tag/%d", i))
+		var b strings.Builder
+		if r.Bool(9, 10) {
+			b.WriteString("<" + r.Pick([]string{"p", "div", "img", "a", "td", "br"}))
+			for j, m := 0, r.Intn(5); j < m; j++ {
+				b.WriteString(r.Pick([]string{" ", "  ", "\n", "\t", ""}))
+				name := r.Pick([]string{"class", "CLASS", "style", "STYLE", "id", "href", "disabled", "data-x"})
+				b.WriteString(name)
+				switch r.Intn(5) {
+				case 0: // no value
+				case 1:
+					b.WriteString("=" + r.Pick([]string{"ka", "kb", "x", "http://x/a", "a:b;", "a/b/"}))
+				default:
+					q := r.Pick([]string{"\"", "'"})
+					b.WriteString(r.Pick([]string{"=", " = ", "= ", " ="}) + q + r.Pick([]string{"ka", "kb", "ka kb", "kb  ka", "zz", "", "a:b", "a:b;", " c:d ; ", "x > y", "it's", "say \"hi\""}) + q)
+				}
+			}
+			b.WriteString(r.Pick([]string{">", " >", "/>", " />", "/ >", "\n>"}))
+		} else {
+			for j, m := 0, 1+r.Intn(12); j < m; j++ {
+				b.WriteString(r.Pick(alphabet))
+			}
+		}
+		tags = append(tags, b.String())
+	}
+	parallel(8, len(tags), func(i int) {
+		t := tags[i]
+		var real string
+		if p := safely(func() { real = components.VerifInlineStylesInTag(t, styles) }); p != nil {
+			res.Violate(Violation{Sig: "panic|inline-tag", Kind: "input", What: fmt.Sprint("inlineStylesInTag panicked: ", p), Input: map[string]string{"tag": t}})
+			return
+		}
+		line, err := drv.Ask("inltag " + hex.EncodeToString([]byte(t)) + " " + table)
+		res.mu.Lock()
+		res.Programs++
+		res.DisagreementsChecked++
+		res.mu.Unlock()
+		parts := strings.Fields(line)
+		if err != nil || len(parts) == 0 {
+			res.Disagree(Violation{Sig: "driver-failed|inltag", Kind: "input", What: fmt.Sprint(err, " ", short(line, 80)), Input: map[string]string{"tag": t}})
+			return
+		}
+		model := parts[0]
+		state := parts[len(parts)-1]
+		if len(parts) == 1 { // empty result
+			model, state = "", parts[0]
+		}
+		res.Case("tag|"+t, real != t)
+		res.Count("tag-parse=" + state)
+		if hex.EncodeToString([]byte(real)) != model {
+			mb, _ := hex.DecodeString(model)
+			res.Disagree(Violation{Sig: "inline-tag-model-mismatch", Kind: "input", What: fmt.Sprintf("inlineStylesInTag(%q) = %q, the Lean model says %q", t, real, string(mb)), Input: map[string]string{"tag": t}})
+		}
+	})
 }
 
 func init() { register("C19", runC19) }
